@@ -239,7 +239,7 @@ impl Campaign for LoopCampaign {
     if self.hybrid { acc.declare_probe("real_driver_polls_cross_checked"); }
     acc.declare_probe("wakeup_with_two_or_more_events"); acc.declare_probe("both_devices_ready_in_one_wakeup");
     if self.property == "C11" || self.property == "C12" || self.property == "C10" { acc.declare_probe("repeat_chords_sent"); acc.declare_probe("timer_ticks"); }
-    if self.property == "C11" { for p in ["chord_while_keys_held", "chord_with_repeat_key_already_held", "timer_disarmed_by_key_event", "ignored_event_while_timer_armed", "poll_with_overdue_timer"] { acc.declare_probe(p); } }
+    if self.property == "C11" || self.property == "C09" { for p in ["chord_while_keys_held", "chord_with_repeat_key_already_held", "timer_disarmed_by_key_event", "ignored_event_while_timer_armed", "poll_with_overdue_timer"] { acc.declare_probe(p); } }
     if self.property == "C12" || self.property == "C06" { for p in ["tablet_on_while_keys_held", "tablet_on_while_timer_armed", "keyboard_reads_in_tablet_mode"] { acc.declare_probe(p); } }
   }
   fn run(&self, seed: u64, idx: u64, ctx: &mut Ctx) -> RunResult {
@@ -345,13 +345,13 @@ impl Campaign for LoopCampaign {
       acc.count("os_fault_executions", evaluations_extra);
     }
     acc.probe_n("repeat_chords_sent", obs.chords); acc.probe_n("timer_ticks", out.stats.timer_ticks);
-    if self.property == "C11" {
+    if self.property == "C11" || self.property == "C09" {
       acc.probe_n("chord_while_keys_held", obs.chords_while_held); acc.probe_n("chord_with_repeat_key_already_held", obs.chord_key_held);
       acc.probe_n("timer_disarmed_by_key_event", obs.timer_disarmed_by_event); acc.probe_n("ignored_event_while_timer_armed", obs.nochange_while_armed); acc.probe_n("poll_with_overdue_timer", obs.overdue_polls);
     }
     if self.property == "C12" || self.property == "C06" { acc.probe_n("tablet_on_while_keys_held", obs.tablet_on_while_held); acc.probe_n("tablet_on_while_timer_armed", obs.tablet_on_while_timer); acc.probe_n("keyboard_reads_in_tablet_mode", obs.reads_in_tablet_mode); }
     acc.count("other_property_disagreements", obs.other_property_disagreements);
-    let nt = match self.property { "C06" => obs.nt_c12, "C10" => obs.nt_c10, "C11" => obs.nt_c11, "C12" => obs.nt_c12, "C19" => obs.nt_c19, "C20" => (self.sweep && out.calls >= 4) || (self.write_faults && out.trace.iter().any(|it| matches!(it, Item::Send { .. }))), "C18" => obs.sends > 0, _ => true };
+    let nt = match self.property { "C09" => obs.timer_disarmed_by_event > 0 || obs.nochange_while_armed > 0, "C06" => obs.nt_c12, "C10" => obs.nt_c10, "C11" => obs.nt_c11, "C12" => obs.nt_c12, "C19" => obs.nt_c19, "C20" => (self.sweep && out.calls >= 4) || (self.write_faults && out.trace.iter().any(|it| matches!(it, Item::Send { .. }))), "C18" => obs.sends > 0, _ => true };
     let hash = case.hash();
     let sample = if ctx.want_sample { Some(json!({"case": case.json(), "trace_head": out.trace.iter().take(30).map(item_str).collect::<Vec<_>>(), "result": format!("{:?}", out.result)})) } else { None };
     let failure = verdict.map(|v| {
@@ -373,6 +373,7 @@ impl Campaign for LoopCampaign {
       match self.property {
         "C10" => "a wake-up delivered >=2 events, or readiness for both devices, or was preceded by an interruption/spurious time-out",
         "C11" => ">=2 repeat chords in the run, or a chord while another key was held",
+        "C09" => "a key event cancelled an armed timer, or an ignored event arrived while a timer was armed",
         "C12" | "C06" => "tablet-on was read while >=1 key was held or a timer was armed",
         "C19" => "a mapper batch of >=3 events was written",
         "C20" => "the swept schedule has >=4 driver calls",
